@@ -56,8 +56,9 @@ CLAIMED["C13"] = dict(
          "the crossing steps; bufferedAmount of every live channel equals the queued user bytes not yet handed to "
          "the transport (never negative, zero when drained) under every congestion oracle; association end closes "
          "every channel and empties table and queue; auto-chosen ids are unused and of the role's parity, live "
-         "channels have pairwise distinct ids, closing never raises KeyError (10 theorems). PARTIAL: 'exactly one "
-         "datachannel event on the peer', cross-endpoint id disjointness and the two-endpoint close protocol are "
+         "channels have pairwise distinct ids, closing never raises KeyError; a received OPEN yields exactly one "
+         "datachannel event for an open channel with the opener's id and parameters, a repeated OPEN is ignored "
+         "(12 theorems). PARTIAL: cross-endpoint id disjointness and the two-endpoint close protocol are "
          "observed only; the latter is refuted by known findings K4 (RE-CONFIG never retransmitted), K9 (reset request "
          "processed before the DATA it follows), K10 (id reused before both directions are reset).",
     design_ref="5 / C13",
